@@ -115,7 +115,28 @@ func famReadWindow(w *World, c *Case, rng *rand.Rand) {
 		w.Violate("C04", "op-hangs:"+r.Side+":"+r.K, "readwindow (%s, %s): %s %s[%d] never returned", side, cause, r.Side, r.K, r.Idx)
 	}
 	w.CheckDelivery()
-	w.CheckOutcome()
+	// two legal outcomes (the outcome oracle is for undisturbed RPCs only): the cancellation, or the
+	// complete normal result
+	if v := buildViews(w.Env)["rw"]; v != nil {
+		if t := clientTerminal(v); t != nil && t.K == "recv" && t.EOF {
+			okSends, got := 0, 0
+			for _, sd := range v.hdlSends {
+				if sd.RetSeq != 0 && sd.Err == "" {
+					okSends++
+				}
+			}
+			for _, r := range v.cliRecvs {
+				if r.RetSeq != 0 && r.Err == "" {
+					got++
+				}
+			}
+			if v.ret == nil {
+				w.Violate("C07", "success-without-handler-return", "readwindow (%s, %s): the caller was told the RPC ended normally but its handler had not returned", side, cause)
+			} else if got != okSends {
+				w.Violate("C07", "mixed-outcome:missing-data", "readwindow (%s, %s): the caller was told OK after %d message(s), the handler had sent %d", side, cause, got, okSends)
+			}
+		}
+	}
 	w.Stat("readwindow_runs", 1)
 	w.Finish()
 }
